@@ -339,6 +339,74 @@ def rpL (limit : Nat) : List T → Nat → List T × Nat
     (a.1 :: b.1, b.2)
 end
 
+/-! ### `resolve_polytomies(rng=…)` under a scripted rng
+
+Script semantics (the harness class `ResolveRng` implements exactly this): the script is a list of naturals consumed
+left to right over the whole operation; an exhausted script yields 0.
+* `rng.sample(pool, m)`: `m` successive draws without replacement; one draw takes the next script value `r` and removes
+  the element at position `r % len(pool)` from the (shrinking) pool; the result lists the drawn elements in draw order.
+* `rng.choice(seq)`: `seq[r % len(seq)]` with the next script value `r`. -/
+
+/-- the element at position `j` and the list without it (the others keep their order) -/
+def pickAt : Nat → List T → Option (T × List T)
+  | _, [] => none
+  | 0, x :: xs => some (x, xs)
+  | j + 1, x :: xs => match pickAt j xs with
+    | some r => some (r.1, x :: r.2)
+    | none => none
+
+/-- scripted `rng.sample(pool, m)`: (drawn elements in draw order, the pool without them, remaining script) -/
+def sampleS : Nat → List T → List Nat → List T × List T × List Nat
+  | 0, pool, sc => ([], pool, sc)
+  | m + 1, pool, sc =>
+    match pickAt (sc.headD 0 % pool.length) pool with
+    | none => ([], pool, sc)          -- empty pool: does not occur (`m + 1 ≤ len(pool)`)
+    | some (x, rest) =>
+      let r := sampleS m rest sc.tail
+      (x :: r.1, r.2.1, r.2.2)
+
+/-- one round of the `while len(to_attach) > 0` loop on the polytomy node `n` (a subtree): `next_child = nc` is joined
+with the attachment point `sib` under the new node `k` (length 0).
+* `next_sib is node`: the new node takes over all current children of `n`; `n` keeps `[new, next_child]`.
+* otherwise: `p = next_sib._parent_node; p.add_child(new)` (appended last), `p.remove_child(next_sib)`,
+  `new.add_child(next_sib); new.add_child(next_child)`.
+Every attachment point is `n` itself or a node below it, so on a tree without shared nodes the last branch is not
+taken; it joins at `n`, so that nothing is dropped on inputs outside that domain. -/
+def attachStep (n : T) (sib k : Nat) (nc : T) : T :=
+  if sib == n.id then n.withCs [.node k none (some Frac.zero) none n.cs, nc] else
+  match parentOf sib n, n.find? sib with
+  | some p, some sub => addChild p (.node k none (some Frac.zero) none [sub, nc]) (splice sib (fun _ => []) n)
+  | _, _ => n.withCs [.node k none (some Frac.zero) none n.cs, nc]
+
+/-- the `while len(to_attach) > 0` loop: `todo` = `to_attach` in the order of the `pop()`s (last drawn first),
+`pts` = `attachment_points` (node ids), `k` = next fresh id, `sc` = remaining script -/
+def attachLoop : T → List T → List Nat → Nat → List Nat → T × Nat × List Nat
+  | n, [], _, k, sc => (n, k, sc)
+  | n, nc :: todo, pts, k, sc =>
+    let sib := pts.getD (sc.headD 0 % pts.length) n.id
+    attachLoop (attachStep n sib k nc) todo (pts ++ [k, nc.id]) (k + 1) sc.tail
+
+mutual
+/-- `Tree.resolve_polytomies(limit, rng=<scripted rng>)`; `k` = next fresh id, `sc` = remaining script.  The polytomies
+are collected in post-order before anything changes and resolving a node changes no child list outside the new nodes
+and the node itself, so the bottom-up recursion visits them in the code's order: children left to right, then the
+node.  `to_attach = rng.sample(children, len - limit)`; each drawn child is removed from the node;
+`attachment_points = remaining children + [node]`; then the loop above. -/
+def rpr (limit : Nat) : T → Nat → List Nat → T × Nat × List Nat
+  | .node i x l s cs, k, sc =>
+    let r := rprL limit cs k sc
+    if r.1.length > limit then
+      let sm := sampleS (r.1.length - limit) r.1 r.2.2
+      attachLoop (.node i x l s sm.2.1) sm.1.reverse (sm.2.1.map T.id ++ [i]) r.2.1 sm.2.2
+    else (.node i x l s r.1, r.2.1, r.2.2)
+def rprL (limit : Nat) : List T → Nat → List Nat → List T × Nat × List Nat
+  | [], k, sc => ([], k, sc)
+  | c :: cs, k, sc =>
+    let a := rpr limit c k sc
+    let b := rprL limit cs a.2.1 a.2.2
+    (a.1 :: b.1, b.2.1, b.2.2)
+end
+
 /-! ## pruning -/
 
 mutual
@@ -525,6 +593,7 @@ inductive Op where
   | polytomize (setUnrooted : Bool)
   | collapseUnweighted (thr : Frac) (ub : Bool)
   | resolve (limit : Nat) (ub : Bool)
+  | resolveRng (limit : Nat) (ub : Bool) (script : List Nat)
   | pruneSubtree (c : Nat) (ub suppress : Bool)
   | filterLeaves (keep : List Nat) (recursive ub suppress : Bool)
   | pruneNoTaxa (recursive ub suppress : Bool)
@@ -609,6 +678,10 @@ def step (s : St) : Op → Except Err St
   | .resolve limit ub =>
     if limit < 2 then .error .badInput else
     let s1 : St := { s with t := (rp limit s.t (maxId s.t + 1)).1 }
+    .ok (if ub then encodeStruct true true s1 else s1)
+  | .resolveRng limit ub script =>
+    if limit < 2 then .error .badInput else
+    let s1 : St := { s with t := (rpr limit s.t (maxId s.t + 1) script).1 }
     .ok (if ub then encodeStruct true true s1 else s1)
   | .pruneSubtree c ub sup =>
     if !containsId c s.t then .error .badInput else pruneSubtree c ub sup s
